@@ -334,6 +334,11 @@ fn registry() -> Vec<Op> {
         op!("int.checked_div", true, true, |i| fold(i.a.as_int().checked_div(&i.b.as_int()).unwrap_or(I256::ZERO).as_uint())),
         op!("int.checked_div_rem", true, true, |i| { let d = CtOption::from(i.b.bitor(&U::ONE).as_int().to_nz()).unwrap_or(NonZero::<I256>::ONE); let (q, r) = i.a.as_int().checked_div_rem(&d); fold(CtOption::from(q).unwrap_or(I256::ZERO).as_uint()) ^ fold(r.as_uint()) }),
         op!("int.checked_div_rem_floor", true, true, |i| { let d = CtOption::from(i.b.bitor(&U::ONE).as_int().to_nz()).unwrap_or(NonZero::<I256>::ONE); let (q, r) = i.a.as_int().checked_div_rem_floor(&d); fold(CtOption::from(q).unwrap_or(I256::ZERO).as_uint()) ^ fold(r.as_uint()) }),
+        // the `_vartime` signed divisions are documented variable-time in the DIVISOR only: secret dividend, public divisor
+        op!("int.checked_div_rem_vartime(public divisor)", true, false, |i| { let d = CtOption::from(i.b.bitor(&U::ONE).as_int().to_nz()).unwrap_or(NonZero::<I256>::ONE); let (q, r) = i.a.as_int().checked_div_rem_vartime(&d); fold(CtOption::from(q).unwrap_or(I256::ZERO).as_uint()) ^ fold(r.as_uint()) ^ fold(i.a.as_int().rem_vartime(&d).as_uint()) }),
+        op!("int.checked_div_rem_floor_vartime(public divisor)", true, false, |i| { let d = CtOption::from(i.b.bitor(&U::ONE).as_int().to_nz()).unwrap_or(NonZero::<I256>::ONE); let (q, r) = i.a.as_int().checked_div_rem_floor_vartime(&d); fold(CtOption::from(q).unwrap_or(I256::ZERO).as_uint()) ^ fold(r.as_uint()) }),
+        op!("int.div_rem_uint_vartime(public divisor)", true, false, |i| { let d = NonZero::new(i.b.bitor(&U::ONE)).unwrap(); let (q, r) = i.a.as_int().div_rem_uint_vartime(&d); fold(q.as_uint()) ^ fold(r.as_uint()) }),
+        op!("int.div_rem_floor_uint_vartime(public divisor)", true, false, |i| { let d = NonZero::new(i.b.bitor(&U::ONE)).unwrap(); let (q, r) = i.a.as_int().div_rem_floor_uint_vartime(&d); fold(q.as_uint()) ^ fold(&r) ^ fold(&i.a.as_int().normalized_rem_vartime(&d)) }),
         op!("int.div_rem_uint", true, true, |i| { let d = NonZero::new(i.b.bitor(&U::ONE)).unwrap(); let (q, r) = i.a.as_int().div_rem_uint(&d); fold(q.as_uint()) ^ fold(r.as_uint()) }),
         op!("int.new_from_abs_sign", true, true, |i| fold(CtOption::from(I256::new_from_abs_sign(i.a, Integer::is_odd(&i.b).into())).unwrap_or(I256::ZERO).as_uint())),
         op!("int.resize", true, true, |i| { let w: I512 = i.a.as_int().resize(); let n: I128 = i.b.as_int().resize(); w.as_uint().as_words()[7] ^ n.as_uint().as_words()[1] }),
